@@ -123,7 +123,7 @@ func (jf *JSONFamily) wireAxioms(e *FuncEnc, t types.Type, s *RefSchema, docOf s
 		e.D.Axiom("wire:raw", fmt.Sprintf("(forall ((x Slice)) (! (= (%s (jv_enc %s)) (rawdoc x)) :pattern ((%s (jv_enc %s)))))", docOf, iface("x"), docOf, iface("x")))
 		return
 	}
-	if nt, ok := t.(*types.Named); ok && nt.Obj().Pkg() != nil && nt.Obj().Pkg().Path() == "emitted" {
+	if nt, ok := t.(*types.Named); ok && nt.Obj().Pkg() != nil && nt.Obj().Pkg().Path() == "emitted" && hasMethod(nt, "UnmarshalJSON") {
 		ef, vf := e.udecFns(t)
 		e.D.Axiom("ih:"+n, fmt.Sprintf("(forall ((x %s)) (! (and (not (%s (%s (jv_enc %s)))) (= (%s (%s (jv_enc %s))) x)) :pattern ((%s (jv_enc %s)))))", srt, ef, docOf, iface("x"), vf, docOf, iface("x"), docOf, iface("x")))
 		return
